@@ -101,6 +101,36 @@ RULES = [
   ('rule20_decimal_neg', r'Number\(-(\w+)\)', r'Number(vx_dec_neg(\1))'),
   ('rule19_external_const', r'\bDecimal::(ONE|ZERO)\b', lambda m: 'vx_dec_%s()' % m.group(1).lower()),
 ]
+# the documented built-in table (README 'BinaryExpression' table for the precedences; associativity / kind from properties C02, C06)
+DOC_INFIX = {}
+for _op in ['=', '+=', '-=', '*=', '/=', '%=', '<<=', '>>=', '&=', '^=', '|=']: DOC_INFIX[_op] = (20, True, False)
+DOC_INFIX.update({'||': (40, False, True), '&&': (50, False, True), '|': (70, False, True), '^': (80, False, True), '&': (90, False, True), '<<': (100, False, True), '>>': (100, False, True),
+                  '+': (110, False, True), '-': (110, False, True), '*': (120, False, True), '/': (120, False, True), '%': (120, False, True), 'beginWith': (200, False, True), 'endWith': (200, False, True), 'in': (200, False, True)})
+for _op in ['<', '<=', '>', '>=', '==', '!=']: DOC_INFIX[_op] = (60, False, True)
+DOC_PREFIX = ['-', '+', '!', 'not', 'AND', 'OR']
+DOC_POSTFIX = ['++', '--']
+DOC_FUNCS = ['min', 'max', 'sum', 'mul']
+
+def _table_text(tab):
+    b = lambda x: 'true' if x else 'false'
+    rows = []
+    for r in tab['infix']:
+        op, prec, ty, assoc = r['args'][0], r['args'][1], r['args'][2], r['args'][3]
+        rows.append((op, prec, 'SETTER' in ty, 'LEFT' in assoc))
+    t = '// ---------- the built-in tables as registered by the four init() functions (extracted, rule 8) vs the documented tables ----------\n'
+    t += 'pub open spec fn builtin_infix(op: &str) -> Option<(int, bool, bool)> {   // (precedence, is assignment, is left-associative)\n    '
+    t += ''.join('if op == %s { Some((%sint, %s, %s)) } else ' % (op, prec, b(s), b(l)) for (op, prec, s, l) in rows) + '{ None }\n}\n'
+    for mgr in ('prefix', 'postfix', 'func'):
+        t += 'pub open spec fn builtin_%s(op: &str) -> bool { %s }\n' % (mgr, ' || '.join('op == %s' % r['args'][0] for r in tab[mgr]) or 'false')
+    t += 'pub proof fn lemma_builtin_tables_are_documented()\n    ensures\n'
+    for op, (p, s, l) in DOC_INFIX.items():
+        t += '        builtin_infix("%s") == Some((%dint, %s, %s)),  // @C02,C03,C08 table.infix\n' % (op, p, b(s), b(l))
+    for mgr, names in (('prefix', DOC_PREFIX), ('postfix', DOC_POSTFIX), ('func', DOC_FUNCS)):
+        for n in names: t += '        builtin_%s("%s"),  // @C02,C03 table.%s\n' % (mgr, n, mgr)
+    t += '        forall|op: &str| #[trigger] builtin_infix(op) is Some ==> (%s),  // @C02,C03 table.no_extra_infix\n' % ' || '.join('op == "%s"' % o for o in DOC_INFIX)
+    t += '{\n    lemma_op_literals();\n}\n'
+    return t
+
 def _sig_params(L, name):
     fn = L.fns[name]; t = L.toks
     out = []
@@ -164,6 +194,7 @@ def _parts(repo_src, g):
         Ghost(_t('hv_ghost.rs'), props=['C03', 'C17'], name='hv_ghost'),
         Ghost(_t('hv_specs.rs'), props=['C03'], name='hv_specs'),
         Ghost(LIT, props=['C03'], name='hv_literals'),
+        Ghost(_table_text(tab), props=['C02', 'C03', 'C08'], name='hv_table'),
         Src('operator.rs(lifted)', loader=Lop, fns=specs_op, props=['C03', 'C04', 'C09'], regex_rules=RULES),
         Src('function.rs(lifted)', loader=Lfn, fns=specs_fn, props=['C03', 'C04'], regex_rules=RULES),
         Ghost('\n} } // verus!\nfn main(){}\n', name='tail'),
